@@ -107,6 +107,15 @@ def no_msg(*subs):
 
 
 COMBINING = msg("are combined but dtype")
+
+
+def _has_method_spelling(f):
+    import numpy
+
+    return hasattr(numpy.ndarray, f.function.split(".")[-1])
+
+
+HAS_METHOD_SPELLING = _has_method_spelling
 ORDERING_FUNCS = in_funcs("greater", "greater_equal", "less", "less_equal", "maximum", "minimum")
 
 
@@ -120,7 +129,7 @@ PLAN: Dict[str, dict] = {
             G("R-PYX-MUL", "products: set on first sight of a key, accumulate afterwards; key encoder width"),
             G("R-OPT-PINNED", "alignment pins the retain flags, so aligned operands keep one layout under every option setting", only=in_files("numpoly/align.py")),
             S("R-DTYPE", "result dtype of a combination depends on all operands", only=COMBINING),
-            G("R-ALIGNFN", "align_exponents rebuilds every operand (consumers read .values of fresh, contiguous results)", only=msg("operand not rebuilt")),
+            G("R-ALIGNFN", "align_exponents rebuilds every operand (consumers read .values of fresh, contiguous results)", only=msg("operand not rebuilt", "align_shape: broadcast")),
             G("R-POWER", "scalar power = one multiplied by the base exactly n times"),
             G("R-VALUES", "operands that are strided views are read in the right element order"),
             G("R-CLEAN", "the clean-up after each operation drops exactly the all-zero non-constant terms", only=in_funcs("remove_redundant_coefficients")),
@@ -175,6 +184,7 @@ PLAN: Dict[str, dict] = {
             G("R-OPT-PINNED", "aligned layout pinned independently of the global options", only=in_files("numpoly/align.py")),
             G("R-ALIAS", "no argument is modified", only=in_files("numpoly/align.py")),
             G("R-NAMES", "rebuilt operands keep their names", only=in_files("numpoly/align.py")),
+            G("R-OPT-TABLE", "the options the alignment reads (default_varname, retain_*) cannot be left half-set by a rejected or interrupted option call"),
         ],
         "explanation": "Each align_* function returns tuple(list of per-argument images) in argument order where slot i is only "
                        "replaced by a value computed from argument i; the common shape / names / exponents are computed over all "
@@ -204,6 +214,7 @@ PLAN: Dict[str, dict] = {
             G("R-LAYOUT", "positional column indices only on polynomials whose names layout is option-independent"),
             G("R-GRAD", "gradient stacks derivative over all names in order; hessian = gradient of gradient"),
             G("R-ALIGNFN", "the re-alignment after each step keeps the indeterminates in integer index order", only=msg("sorted by int", "sort key")),
+            S("R-NAMES", "gradient/hessian join the partial derivatives under the polynomial's own names"),
             S("R-ALIGN", "derivative re-aligns with the reference after each variable"),
             G("R-OPT-PINNED", "alignment keeps one layout under every option setting (operands with different name sets)", only=in_files("numpoly/align.py")),
         ],
@@ -220,6 +231,7 @@ PLAN: Dict[str, dict] = {
             G("R-STABLE", "the monomial order itself is platform independent"),
             S("R-ORDER", "operands of the comparison ufuncs in parameter order"),
             S("R-ALIGN", "columns compared by position only after alignment"),
+            S("R-DTYPE", "maximum/minimum select between the operands in a dtype depending on both", only=COMBINING),
             G("R-OPT-PINNED", "alignment keeps one layout under every option setting (operands with different name sets)", only=in_files("numpoly/align.py")),
         ],
         "explanation": "greater/greater_equal/less/less_equal walk the aligned terms in ascending glexsort(sort_graded, "
@@ -236,6 +248,7 @@ PLAN: Dict[str, dict] = {
             G("R-OPS", "operators and method spellings forward to the same functions with all parameters"),
             G("R-REGISTRAR", "the registration decorators enter every target into every table"),
             S("R-FWD", "registered wrappers forward the value/shape parameters they share with numpy"),
+            G("R-NAMES", "functions that also exist as ndarray methods/attributes (transpose/.T, reshape, ravel, ...) keep the names like the method spelling does", only=HAS_METHOD_SPELLING),
         ],
         "explanation": "Positive half by identity of callee: every reachable registry entry T->F satisfies numpoly.<name(T)> is F, "
                        "ufuncs only reachable through the ufunc table; REDUCE/ACCUMULATE mappings agree with numpy's definition of "
@@ -281,6 +294,7 @@ PLAN: Dict[str, dict] = {
             S("R-KEYS", "result buffers are fully written"),
             G("R-PRODAXES", "prod over an axis tuple reduces and re-inserts each axis in one traversal"),
             G("R-OUTER", "outer flattens both operands like numpy.outer"),
+            G("R-OPS", "the reduction methods (sum/cumsum/mean/prod) forward every parameter to the function spelling", only=in_funcs("sum", "cumsum", "mean", "prod", "__matmul__", "__rmatmul__")),
         ],
         "explanation": "sum/cumsum/mean dispatch their namesake per aligned key with axis/dtype/keepdims forwarded; diff aligns a, "
                        "prepend and append in one call and writes every key; every numpy call in the call graph of the reductions "
@@ -311,6 +325,8 @@ PLAN: Dict[str, dict] = {
             G("R-KEYS", "no raw buffer escapes unwritten (including empty results)"),
             G("R-CAST", "data is cast to the buffer dtype before the raw write, writers only for dtypes they implement"),
             G("R-DTYPE", "requested dtype reaches every constructed polynomial; combined results depend on all operand dtypes"),
+            G("R-CLEAN", "a result whose terms were all filtered away keeps the shape and dtype of its inputs", only=msg("zero fall-back")),
+            G("R-POWER", "the constant one that seeds a power carries the base's dtype", only=msg("dtype of the initial one")),
         ],
         "explanation": "The C writers' dtype switch is read from the .pyx (cannot be rebuilt here): arms, element/pointer types, "
                        "default arm; polynomial_from_attributes casts every coefficient to the buffer dtype and uses the raw writer "
@@ -327,6 +343,7 @@ PLAN: Dict[str, dict] = {
             G("R-HEADER", "header writer/reader agreement, empty shape of 0-d, strict decoding, layout restored"),
             G("R-CODEC", "keys written to the header decode with the same constant"),
             S("R-SIG", "loadtxt reaches a signature-valid reshape"),
+            G("R-NAMES", "loadtxt restores the shape through reshape, which must keep the names", only=in_files("array_function/reshape.py", "array_function/loadtxt.py", "array_function/savetxt.py")),
         ],
         "explanation": "__reduce__ returns polynomial_from_attributes with exponents/coefficients/names/dtype/allocation bound to the "
                        "right parameters; __array_finalize__ copies exactly the attribute set __new__ assigns; HEADER_REGEX is built "
@@ -384,6 +401,7 @@ PLAN: Dict[str, dict] = {
     "C18": {
         "uses": [G("R-STABLE", "no unstable sort primitive in the composed sort"), S("R-FWD", "graded/reverse/cross_truncation forwarded", only=in_files("numpoly/utils/", "construct/monomial.py")),
                  G("R-BINDEX", "the inverted ordering reverses rows only"),
+                 G("R-NONE", "bounds / dimensions / cross_truncation that are 0 are honoured, not mistaken for 'omitted'", only=in_files("numpoly/utils/", "construct/monomial.py")),
                  G("R-DIVGUARD", "cross_truncate divides by the bound only after excluding negative and zero components"),
                  G("R-OPT-PAIRING", "glexindex/monomial/bindex forward graded/reverse to their callee", only=in_files("numpoly/utils/", "construct/monomial.py"))],
         "explanation": "glexsort's second (graded) sort is stable; glexindex/bindex/monomial forward graded/reverse/"
@@ -400,6 +418,7 @@ PLAN: Dict[str, dict] = {
             G("R-SETDIM", "dropping trailing indeterminates keeps exactly the terms free of them"),
             G("R-CLEAN", "isconstant ignores exactly the constant term", only=in_funcs("isconstant")),
             S("R-SIG", "amax/amin reach a signature-valid reshape"),
+            G("R-STABLE", "the monomial order behind the leading-term queries is platform independent"),
         ],
         "explanation": "lead_exponent and lead_coefficient are the same ascending glexsort(graded, reverse) walk overwriting where "
                        "the coefficient is non-zero from a zero-initialised result; tonumpy raises FeatureNotSupported unless "
@@ -412,6 +431,8 @@ PLAN: Dict[str, dict] = {
             G("R-CODEC", "key codec is one constant with opposite signs at encode/decode sites"),
             G("R-PYX-MUL", "the product-key builder does not narrow"),
             G("R-EXPDTYPE", "exponent matrices are never created with a coefficient dtype"),
+            G("R-COLIDX", "differentiation decrements the exponent column of the variable asked for"),
+            G("R-UNSIGNED", "uint32 exponents are never scaled by a run-time value without widening (silent wrap at 2**32)", only=msg("wraps silently")),
             G("R-HEADER", "header delimiters are outside the key alphabet; decoding is strict", only=msg("delimiter", "errors=", "HEADER_TEMPLATE")),
             G("R-ALIAS", "the constructor does not shift a caller's exponent array in place", only=lambda f: f.function.endswith("__new__") or "numpoly/construct/" in f.relpath),
         ],
